@@ -56,7 +56,8 @@ func genTD(t *rapid.T, depthLeft int, role int, laxProp bool, forceStruct bool) 
 		if td.HasTag && role == roleRoot {
 			td.Tag = rootTags[rapid.IntRange(0, len(rootTags)-1).Draw(t, "roottag")]
 		}
-		if role == roleField && pct(t, 30, "opt") {
+		if (role == roleField && pct(t, 30, "opt")) || (role == roleRoot && pct(t, 15, "rootopt")) {
+			// at the root: top-level params "optional[,default:N]" - an empty / exhausted input is then an absent element
 			td.Opt = true
 		}
 		if td.K == KFlag {
@@ -197,20 +198,41 @@ func genInt(t *rapid.T, bits int) int64 {
 	return v
 }
 
-func genBytes(t *rapid.T, label string) []byte {
-	n := 0
+// Content lengths at which the DER length octets change form or width.
+var lenSmallBoundary = []int{127, 128, 255, 256}
+var lenLargeBoundary = []int{65532, 65535, 65536, 65537} // 65532: an OCTET STRING whose explicit wrapper holds exactly 65536 octets
+
+// hugeBudget limits the 2^24-octet contents (thorough tier only) to one per case; reset by the case generators.
+var hugeBudget int
+
+// genLen draws a content length: mostly short, with explicit classes around every length-encoding boundary.
+func genLen(t *rapid.T, label string) int {
 	switch x := rapid.IntRange(0, 19).Draw(t, label+"lenmode"); {
-	case x < 14:
-		n = rapid.IntRange(0, 8).Draw(t, label+"len")
+	case x < 12:
+		return rapid.IntRange(0, 8).Draw(t, label+"len")
+	case x < 15:
+		return rapid.IntRange(120, 135).Draw(t, label+"len")
 	case x < 17:
-		n = rapid.IntRange(120, 135).Draw(t, label+"len")
+		return rapid.IntRange(250, 262).Draw(t, label+"len")
+	case x < 18:
+		return lenSmallBoundary[rapid.IntRange(0, len(lenSmallBoundary)-1).Draw(t, label+"lenb")]
 	case x < 19:
-		n = rapid.IntRange(250, 262).Draw(t, label+"len")
-	default:
-		n = rapid.IntRange(0, 600).Draw(t, label+"len")
-		if harness.Thorough() && rapid.IntRange(0, 9).Draw(t, label+"huge") == 0 {
-			n = rapid.IntRange(65000, 66000).Draw(t, label+"len2")
+		if rapid.Bool().Draw(t, label+"lenlarge") {
+			return lenLargeBoundary[rapid.IntRange(0, len(lenLargeBoundary)-1).Draw(t, label+"lenB")]
 		}
+		return lenSmallBoundary[rapid.IntRange(0, len(lenSmallBoundary)-1).Draw(t, label+"lenb")]
+	}
+	if harness.Thorough() && hugeBudget > 0 && rapid.IntRange(0, 399).Draw(t, label+"huge") == 0 {
+		hugeBudget--
+		return 1<<24 + rapid.IntRange(-1, 1).Draw(t, label+"huged")
+	}
+	return rapid.IntRange(0, 600).Draw(t, label+"len")
+}
+
+func genBytes(t *rapid.T, label string) []byte {
+	n := genLen(t, label)
+	if label == "bits" && n > 16 && rapid.Bool().Draw(t, "bitsminus") {
+		n-- // BIT STRING content is one octet longer than its data
 	}
 	if n > 16 {
 		// long values need length, not entropy
@@ -229,10 +251,31 @@ const asciiExtra = "@!#$%;<>[]_{}|~*&\"\t"
 
 func genString(t *rapid.T, charset string, minLen int) string {
 	n := rapid.IntRange(minLen, 10).Draw(t, "slen")
-	if rapid.IntRange(0, 19).Draw(t, "slong") == 0 {
-		n = rapid.IntRange(126, 131).Draw(t, "slen2")
+	if rapid.IntRange(0, 9).Draw(t, "slong") == 0 {
+		n = genLen(t, "s")
 	}
 	rs := []rune(charset)
+	if n > 16 {
+		// long strings: exact octet length, characters cycled (one multi-octet character first if the set has any)
+		var ascii []byte
+		var multi string
+		for _, r := range rs {
+			if r < 0x80 {
+				ascii = append(ascii, byte(r))
+			} else if multi == "" {
+				multi = string(r)
+			}
+		}
+		off := rapid.IntRange(0, len(ascii)-1).Draw(t, "soff")
+		out := make([]byte, 0, n)
+		if multi != "" && rapid.Bool().Draw(t, "smulti") {
+			out = append(out, multi...)
+		}
+		for i := 0; len(out) < n; i++ {
+			out = append(out, ascii[(off+i)%len(ascii)])
+		}
+		return string(out)
+	}
 	out := make([]rune, n)
 	for i := range out {
 		out[i] = rs[rapid.IntRange(0, len(rs)-1).Draw(t, "ch")]
@@ -314,6 +357,7 @@ func genVal(t *rapid.T, td *TD, malP int, quirk string) Val {
 					v.S = genString(t, printableChars+asciiExtra, min)
 				case 30:
 					v.S = genString(t, bmpChars, min)
+					v.Nul = rapid.IntRange(0, 3).Draw(t, "bmpnul") // trailing U+0000 code units: exactly one is a terminator
 				}
 			}
 		}
